@@ -1,6 +1,6 @@
 """Contract of Engine.run_for (C01, C02, C03, C04, C12).  See DESIGN.md Appendix A for the invariant set."""
 from pyvc.spec import contract
-from specs.c_engine import E
+from specs.c_engine import E, APPLY_FRAME
 
 def PEND(p):
     return "is_alt(lookup(self.front, %s)['update'], 'pending')" % p
@@ -124,7 +124,7 @@ contract(E + 'Engine.run_for', props=['C01', 'C02', 'C03', 'C04', 'C12'],
          modifies=['self.global_time', 'self.front', 'self.process_paths', 'self._step_paths', 'self.g_version',
                    'self.g_steps_run', 'self.g_emits', 'self.g_views_valid', 'Defer.g_live', 'Store.topology_view', 'Process.g_pending', 'Defer.defer', 'Defer.args',
                    'Defer.g_empty', 'Defer.g_issued', 'Defer.g_consumed', 'Defer.g_path', 'Defer.g_dt', 'Defer.g_start',
-                   'Defer.g_due', 'Defer.g_at'],
+                   'Defer.g_due', 'Defer.g_at'] + APPLY_FRAME,
          alloc=True,
          ensures=['self.g_views_valid',                                               # C07: views current at every invocation
                   'self.global_time == old(self.global_time) + interval',            # C03: lands exactly on the end
@@ -172,7 +172,7 @@ contract(E + 'Engine.update', props=['C02', 'C01', 'C03'],
          modifies=['self.global_time', 'self.front', 'self.process_paths', 'self._step_paths', 'self.g_version',
                    'self.g_steps_run', 'self.g_emits', 'self.g_views_valid', 'Defer.g_live', 'Store.topology_view',
                    'Process.g_pending', 'Defer.defer', 'Defer.args', 'Defer.g_empty', 'Defer.g_issued', 'Defer.g_consumed',
-                   'Defer.g_path', 'Defer.g_dt', 'Defer.g_start', 'Defer.g_due', 'Defer.g_at'],
+                   'Defer.g_path', 'Defer.g_dt', 'Defer.g_start', 'Defer.g_due', 'Defer.g_at'] + APPLY_FRAME,
          alloc=True,
          ensures=['self.global_time == old(self.global_time) + interval', NO_PENDING, LEDGER,
                   "forall(lambda p: implies(has(self.front, p), %s == self.global_time))" % TIME('p')],
@@ -204,7 +204,8 @@ contract(E + 'Engine.__init__', props=['C05', 'C12', 'C01', 'C03'],
                    'self.g_emits', 'self.g_views_valid', 'self.emit_step', 'self.display_info', 'self.global_time_precision',
                    'self.progress_bar', 'self.state', 'self.processes', 'self.steps', 'self.topology', 'self.flow',
                    'Store.topology_view', 'Process.g_pending', 'Defer.defer', 'Defer.args', 'Defer.g_empty', 'Defer.g_issued',
-                   'Defer.g_consumed', 'Defer.g_path', 'Defer.g_dt', 'Defer.g_live'],
+                   'Defer.g_consumed', 'Defer.g_path', 'Defer.g_dt', 'Defer.g_live'] +
+         [m for m in APPLY_FRAME if not m.startswith('self.')],
          alloc=True,
          ensures=[
              # exactly the precondition of run_for ...
